@@ -13,6 +13,9 @@ CORPORA = {
     # C08 scope: the two crates' own header kinds (DummyTestHeader is a test utility of multiboot2-common)
     "refslice8": dict(model="MC_RefSlice", quick=dict(MaxLen=24, MaxDecl=40, HeaderNames='{"bi", "tag", "mb", "htag"}'),
                       thorough=dict(MaxLen=40, MaxDecl=56, HeaderNames='{"bi", "tag", "mb", "htag"}'), profiles=DEV_REL, place="end"),
+    # the header crate's two header types only (C09: a header tag or header parsed standalone stays inside its slice)
+    "hrefslice": dict(model="MC_RefSlice", quick=dict(MaxLen=24, MaxDecl=40, HeaderNames='{"mb", "htag"}'),
+                      thorough=dict(MaxLen=40, MaxDecl=56, HeaderNames='{"mb", "htag"}'), profiles=DEV_REL, place="both"),
     "refslice": dict(model="MC_RefSlice",
                      quick=dict(MaxLen=24, MaxDecl=40), thorough=dict(MaxLen=40, MaxDecl=56),
                      profiles=DEV_REL, place="both"),
@@ -115,7 +118,7 @@ CHECKS = {
     "C16": dict(corpora=["boxed", "ctor", "refslice"],
                 rule="new_boxed on all partitions of content of total length 0..MaxTotal into <= 3 slices x 3 header kinds (each also cloned); "
                      "every heap-allocated tag kind x content lengths 0..MaxContent constructed, cloned and dropped under a tracking allocator"),
-    "C09": dict(laws=[("APA_Iter", "Init", "IndInv", 1), ("APA_Iter", "IndInit", "IndInv", 1)], corpora=["hwalk", "hdst", "hfields", "hgetters", "hload", "hmut", "hperm"],
+    "C09": dict(laws=[("APA_Iter", "Init", "IndInv", 1), ("APA_Iter", "IndInit", "IndInv", 1)], corpora=["hwalk", "hdst", "hfields", "hgetters", "hload", "hmut", "hperm", "hrefslice"],
                 rule="all lazily chosen header-tag sequences (4 type/flag pairs, sizes 0..remaining+9), every header-tag kind at every "
                      "declared size 0..40, conformant tags; every call checked for crash/hang and extents inside the declared header"),
     "C10": dict(technique="TLA+ specification + TLC model checking + TLC trace validation of replayed cases; checksum law: Apalache on the specification "
